@@ -58,7 +58,7 @@ func (c05) Cases(tier string) int {
 	if tier == "thorough" {
 		return 80000
 	}
-	return 2000
+	return 10000
 }
 func (c05) RaceCases(tier string) int {
 	if tier == "thorough" {
@@ -70,7 +70,7 @@ func (c05) Floor(tier string) int {
 	if tier == "thorough" {
 		return 20000
 	}
-	return 500
+	return 2500
 }
 
 // ---- shared helpers (C05, C07) ---------------------------------------------------------------
@@ -531,6 +531,9 @@ func c05PlanSig(in []ref.YDoc) string {
 
 func (p c05) Run(w *mon.Worker, idx int) mon.Result {
 	r := w.Rand(idx)
+	if idx%25 == 7 {
+		return c05LongCase(w, r)
+	}
 	st := gen.GenYAML(r, gen.YDefault())
 	feats := st.Features()
 	res := mon.Result{Case: map[string]any{"text": st.Text, "features": feats}}
